@@ -195,7 +195,7 @@ func Check(env *core.Env, rep *core.Report) *core.Result {
 	var wg sync.WaitGroup
 	par := func(f func()) { wg.Add(1); go func() { defer wg.Done(); f() }() }
 	var names []nameRow
-	var dags []dagRow
+	var dags, dags4 []dagRow
 	par(func() {
 		r := core.MustHold(env, core.TLCOpts{Module: "Output", Config: "Output_ok.cfg", Workers: 2})
 		note("Output_ok", r, "DependantSees holds for every dependency arrangement of 3 stages x every interleaving of launch / store / publish")
@@ -224,6 +224,20 @@ func Check(env *core.Env, rep *core.Report) *core.Result {
 		}
 		note("OutputGen", r, fmt.Sprintf("%d name shapes, %d dependency arrangements", len(names), len(dags)))
 	})
+	if thorough {
+		par(func() {
+			r := core.MustHold(env, core.TLCOpts{Module: "OutputGen", Config: "OutputGen_4.cfg", Workers: 1})
+			mu.Lock()
+			for _, p := range r.Tagged("DAG") {
+				var x dagRow
+				if json.Unmarshal([]byte(p), &x) == nil {
+					dags4 = append(dags4, x)
+				}
+			}
+			mu.Unlock()
+			note("OutputGen_4", r, "64 dependency arrangements of 4 stages")
+		})
+	}
 	wg.Wait()
 	if len(names) != 155 || len(dags) != 8 {
 		core.Broken("OutputGen emitted %d names / %d graphs, expected 155 / 8", len(names), len(dags))
@@ -425,6 +439,11 @@ func Check(env *core.Env, rep *core.Report) *core.Result {
 	var dcases []dcase
 	for _, d := range dags {
 		for k := 0; k < reps; k++ {
+			dcases = append(dcases, dcase{d, k})
+		}
+	}
+	for _, d := range dags4 {
+		for k := 0; k < 40; k++ {
 			dcases = append(dcases, dcase{d, k})
 		}
 	}
